@@ -526,7 +526,26 @@ func (db *MultiBucketBackend) deleteObjectLocked(bucketName, objectName string) 
 		return err
 	}
 
+	db.removeEmptyDirsLocked(bucketName, path.Dir(fullPath))
+
 	return nil
+}
+
+// removeEmptyDirsLocked removes the directories left behind by a deleted key,
+// from dir up to (excluding) the bucket directory, as long as they are empty.
+// S3 has no directories: a left-over one would be listed as a common prefix
+// and would keep DeleteBucket answering BucketNotEmpty.
+func (db *MultiBucketBackend) removeEmptyDirsLocked(bucketName, dir string) {
+	for strings.HasPrefix(dir, bucketName+"/") {
+		entries, err := afero.ReadDir(db.bucketFs, filepath.FromSlash(dir))
+		if err != nil || len(entries) > 0 {
+			return
+		}
+		if err := db.bucketFs.Remove(filepath.FromSlash(dir)); err != nil {
+			return
+		}
+		dir = path.Dir(dir)
+	}
 }
 
 func (db *MultiBucketBackend) DeleteMulti(bucketName string, objects ...string) (result gofakes3.MultiDeleteResult, rerr error) {
